@@ -24,11 +24,13 @@ class StrFn:
         self.len_ctor = None
         self.mins = {}
         if fn.kind == "ctor":
-            for n in fn.events():
-                w = write_of(n)
-                if w and w[0] == ("this", "_length") and w[1] is not None:
-                    self.len_ctor = w[1]
-                    break
+            # a default member initialiser is overridden by an assignment in the body
+            ws = [(n, write_of(n)) for n in fn.events()]
+            ws = [(n, w) for n, w in ws if w and w[0] == ("this", "_length") and w[1] is not None]
+            if any(n.kind != "CtorInit" for n, w in ws):
+                ws = [(n, w) for n, w in ws if not (n.kind == "CtorInit" and n.get("implicit"))]
+            if ws:
+                self.len_ctor = ws[0][1][1]
 
     def leaf(self, n):
         n = std_unwrap(n)
@@ -335,6 +337,9 @@ def check_string_buffers(ctx, unit, tag="", only_chart=None):
                     for n in f.events())
                 nulls = [n for n in f.events() if write_of(n) and write_of(n)[0] == ("this", "_buffer") and write_of(n)[1] is not None
                          and _is_null(write_of(n)[1])]
+                if ok:
+                    # a default member initialiser runs before the body that installs the allocation
+                    nulls = [n for n in nulls if not (n.kind == "CtorInit" and n.get("implicit"))]
                 ctx.inst("I.buffer-nonnull", "%s::<ctor>(%s)" % (STR, ", ".join(p["n"] for p in f.params())),
                          ok and not nulls, f.loc,
                          "constructor leaves _buffer == nullptr: data()[size()] dereferences a null pointer" if not ok else
@@ -611,6 +616,8 @@ def check_views(ctx, unit):
                             g = True
                     ok = ok and g
                 ctx.inst("E.prefix-suffix-guard", f.sig, ok, f.loc, "sub_string(from, n) reached only where n <= size() - from is known (n <= size() for from = 0 or from = size() - n): %s" % ok, f)
+    check_view_equality(ctx, unit)
+    check_to_number_exact(ctx, unit)
     for rec in recs_of(unit, STR):
         for f in cls_fns(unit, rec["qn"]):
             if f.name != "compare":
@@ -652,6 +659,129 @@ def check_views(ctx, unit):
             ctx.inst("E.compare-length-first", f.sig, ok, f.loc,
                      "every character access dominated by (lengths equal) and (i < _length): %s; the other length is a complete "
                      "length (size()/strlen, not a bounded scan): %s" % (ok, full), f)
+
+
+def check_view_equality(ctx, unit):
+    ctx.rule("E.equal-lengths-first", "basic_string_view::operator== answers true only where the two lengths are known equal; "
+             "the identity of the character pointers never decides without them", 1)
+    # equality of views: `true` is an answer about the characters of two views of EQUAL length -- it is never given before
+    # the lengths were compared, and the identity of the character pointers does not stand in for that comparison (two
+    # views of one buffer with different lengths start at the same address)
+    from .ir import exit_values
+    from .rules_guard import const_bool
+    for rec in recs_of(unit, VIEW):
+        for f in cls_fns(unit, rec["qn"]):
+            if f.name != "operator==":
+                continue
+            bad, n_true = [], 0
+            for a, v in exit_values(f):
+                if v is None:
+                    continue
+                cb = const_bool(v)
+                ptr_cmp = any(x.kind == "BinaryOperator" and x.op in ("==", "!=") and
+                              all((path(y) or ("",))[-1] == "_pointer" for y in x.children) for x in [v] + list(v.walk()))
+                if cb is not True and not ptr_cmp:
+                    continue
+                n_true += cb is True
+                known = any(_eq_lengths(c, t, f) for c, t in flow.facts_at(f, a.id)) or _lengths_equal_on_all_paths(f, a)
+                if not known:
+                    bad.append("%s at %s without the lengths known equal" % (
+                        "answers true" if cb is True else "lets the identity of the character pointers decide", a.loc))
+            ctx.inst("E.equal-lengths-first", f.sig, not bad, f.loc,
+                     "; ".join(bad[:2]) if bad else "%d constant-true exits, each under lengths-equal" % n_true, f)
+
+
+def check_to_number_exact(ctx, unit, rule="E.to-number-exact"):
+    """to_number<T> accepts exactly the digit strings that fit into T.  Whether one more digit still fits depends on that
+    digit (value == max/10 takes a small digit and refuses a large one), so among the decisions that refuse a string
+    because of the accumulated value at least one must look at the current character -- through the overflow-checked
+    addition, a comparison against max - digit, a wider intermediate, whatever.  A refusal decided by the accumulator alone is
+    either too early (numbers that fit are refused) or too late."""
+    ctx.rule(rule, "to_number: some decision that refuses a digit string because of the accumulated value depends on the current "
+             "digit (a threshold on the accumulator alone refuses numbers that fit, or accepts ones that do not)", 1)
+    fns = [f for rec in recs_of(unit, VIEW) for f in cls_fns(unit, rec["qn"]) if f.name == "to_number"]
+    if not fns:
+        raise AnalysisBroken("anchor vanished: basic_string_view::to_number")
+    for f in fns:
+        bm = f.bind_map()
+        inits = RA.local_inits(f)
+
+        def expand(x, depth=0):
+            """the nodes of x, with the arguments bound to parameters of folded helpers looked into"""
+            for y in [x] + list(x.walk()):
+                yield y
+                if y.kind == "DeclRefExpr" and y.d.get("d") in bm and depth < 6:
+                    for z in expand(f.node(bm[y.d["d"]]), depth + 1):
+                        yield z
+
+        def root_did(x, depth=0):
+            """the variable a (possibly by-reference bound) name stands for"""
+            x = std_unwrap(x)
+            while x.kind == "UnaryOperator" and x.op in ("&", "*") and x.children:
+                x = std_unwrap(x.children[0])
+            if x.kind != "DeclRefExpr":
+                return None
+            if x.d.get("d") in bm and depth < 6:
+                r = root_did(f.node(bm[x.d["d"]]), depth + 1)
+                return r if r is not None else x.d["d"]
+            return x.d.get("d")
+        # pointers into the characters
+        cptr = set()
+        for d, init in inits.items():
+            if not (std_unwrap(init).get("t") or init.get("t") or "").rstrip().endswith("*"):
+                continue
+            if any((y.kind == "MemberExpr" and (path(y) or ("",))[-1] == "_pointer") or
+                   (y.is_call() and y.callee and y.callee["n"] in ("data", "begin", "end")) for y in expand(init)):
+                cptr.add(d)
+
+        def is_char(x):
+            if x.kind in ("ArraySubscriptExpr",) or (x.kind == "UnaryOperator" and x.op == "*") or \
+                    (x.kind == "CXXOperatorCallExpr" and x.callee and x.callee.get("op") in ("[]", "*")):
+                base = x.children[0] if x.children else None
+                if base is None:
+                    return False
+                return any((y.kind == "MemberExpr" and (path(y) or ("",))[-1] == "_pointer") or
+                           (y.kind == "DeclRefExpr" and y.d.get("d") in cptr) for y in expand(base))
+            return False
+        derived = set()
+        changed = True
+        while changed:
+            changed = False
+            for d, init in list(inits.items()) + [
+                    (root_did(n.children[0]), n.children[1]) for n in f.all_nodes()
+                    if n.kind in ("BinaryOperator", "CompoundAssignOperator") and n.op in ("=", "+=", "*=", "-=")]:
+                if d is None or d in derived or init is None or d in cptr:
+                    continue
+                if any(is_char(x) or (x.kind == "DeclRefExpr" and root_did(x) in derived) for x in expand(init)):
+                    derived.add(d)
+                    changed = True
+        # the accumulator: what the overflow-checked builtins write, or a local multiplied / added onto itself
+        accs = set()
+        for n in f.all_nodes():
+            if n.is_call() and n.callee and n.callee["n"] in ("__builtin_mul_overflow", "__builtin_add_overflow") and len(n.args) == 3:
+                d = root_did(n.args[2])
+                if d is not None:
+                    accs.add(d)
+            if n.kind in ("BinaryOperator", "CompoundAssignOperator") and n.op in ("=", "*=", "+="):
+                d = root_did(n.children[0])
+                if d is not None and (n.op == "*=" or any(x.kind == "BinaryOperator" and x.op == "*" and any(
+                        y.kind == "DeclRefExpr" and root_did(y) == d for y in x.walk()) for x in [n.children[1]] + list(n.children[1].walk()))):
+                    accs.add(d)
+        accs -= cptr
+        overflow, with_digit = [], []
+        for blk in f.blocks.values():
+            if blk.cond is None:
+                continue
+            c = f.node(blk.cond)
+            xs = list(expand(c))
+            if not any(x.kind == "DeclRefExpr" and root_did(x) in accs for x in xs):
+                continue
+            overflow.append(c)
+            if any(is_char(x) for x in xs) or any(x.kind == "DeclRefExpr" and root_did(x) in (derived - accs) for x in xs):
+                with_digit.append(c)
+        ok = not overflow or bool(with_digit)
+        ctx.inst(rule, "%s<%s>" % (f.uq, f.get("targs", "").strip("<>")), ok, f.loc,
+                 "%d decisions on the accumulated value, %d of them look at the current digit" % (len(overflow), len(with_digit)), f)
 
 
 def check_cstring_params(ctx, unit, rule="B.cstring-subscript-bounded"):
